@@ -15,6 +15,10 @@ class Cycle(Exception):
     pass
 
 
+class FuelExhausted(Exception):
+    pass
+
+
 def nl(s):
     return "\n" + s if s.startswith(MARK) else s
 
@@ -79,6 +83,9 @@ class Ref:
         self.rules = {}
         self.body_selection = body_selection
         self.template_ns_name = "Template"
+        self.fuel = 20000
+        self.max_depth = 30
+        self.cycle_marker = None   # if set: a re-entered template yields this marker instead of raising Cycle
         self.full_body = set()     # templates whose body is expanded fully (flagged templates on non-en wikis)
 
     def hit(self, r):
@@ -148,7 +155,17 @@ class Ref:
                     t = "[[:" + self.template_ns_name + ":" + name + "]]"
                 else:
                     if name in stack:
-                        raise Cycle(name)
+                        self.hit("template-reentered-on-own-path")
+                        if self.cycle_marker is None:
+                            raise Cycle(name)
+                    if self.cycle_marker is not None:
+                        self.fuel -= 1
+                        if self.fuel < 0:
+                            raise FuelExhausted()
+                        if len(stack) > self.max_depth:
+                            # unbounded (or very deep) recursion: the implementation must cut it and say so
+                            self.hit("cycle-or-depth")
+                            return self.cycle_marker
                     self.hit("template-expanded")
                     t = self.ev(self.lib[name], ht, stack + (name,), full or name in self.full_body)
             t2 = nl(t)
